@@ -139,8 +139,11 @@ def gen(tier, seed):
         slot = 0
         for nd, depth in rng.sample(cand, min(k, len(cand))):
             mask = rng.getrandbits(32) & rng.getrandbits(32) if rng.random() < 0.7 else rng.getrandbits(32)
-            if rng.random() < 0.1:
-                mask = 0
+            r = rng.random()
+            if r < 0.1:
+                mask = 0                # a filter that accepts everything
+            elif r < 0.17:
+                mask = 0xffffffff       # a filter that rejects everything
             filters.append([nd.loc, slot, mask])
             slot += 1
         pfs = []
